@@ -103,4 +103,6 @@ func (s *CommitStateDB) deleteStateObject(so *stateObject) {
 	so.deleted = true
 	s.logger.Detailf("VM: delete state object for address '%s' with nonce: '%d' and balance: '%d' \n", so.Address(), so.account.Sequence, so.account.Balance())
 	s.accountKeeper.RemoveAccount(*so.account)
+	// the storage goes with the account: an account created at this address later starts empty
+	s.contractStore.DeleteStorage(so.Address())
 }
